@@ -48,7 +48,7 @@ def boundary_lengths(P, F, kmax):
 def plan(tier):
     if tier == "quick":
         specs = [{"part": "table", "mtu": m, "kmax": 2, "stride": 3, "off": i % 3} for i, m in enumerate(TABLE_MTUS)]
-        specs += [{"part": "hist", "n": 130, "i": i, "strict": i % 2 == 0} for i in range(7)]
+        specs += [{"part": "hist", "n": 100, "i": i, "strict": i % 2 == 0} for i in range(7)]
         return specs
     specs = [{"part": "table", "mtu": m, "kmax": 12, "stride": 1, "off": 0} for m in TABLE_MTUS]
     specs += [{"part": "hist", "n": 5000, "i": i, "strict": i % 2 == 0} for i in range(16)]
